@@ -852,9 +852,13 @@ impl Store {
                 // no value present, we can always insert plain value
                 (false, true, ValueEntry::Plain(v))
             }
-            (None, ValueEntry::Cas(value, 0), _) | (None, ValueEntry::Cas(value, _), true) => {
-                // no value present, we can insert cas value if version is 0 or insertion is forced
+            (None, ValueEntry::Cas(value, 0), _) => {
+                // no value present, we can insert cas value if version is 0
                 (false, true, ValueEntry::Cas(value, 1))
+            }
+            (None, ValueEntry::Cas(value, v), true) => {
+                // a forced insert (restoring from persistence, syncing an import) stores the entry as is
+                (false, true, ValueEntry::Cas(value, v))
             }
             (None, ValueEntry::Cas(_, _), false) => {
                 // no value present, we cannot insert cas value if version != 0 and insertion is not forced
@@ -864,10 +868,13 @@ impl Store {
                 // plain value present, we can always insert plain value
                 (true, current != &val, ValueEntry::Plain(val))
             }
-            (Some(ValueEntry::Plain(current)), ValueEntry::Cas(val, 0), _)
-            | (Some(ValueEntry::Plain(current)), ValueEntry::Cas(val, _), true) => {
-                // plain value present, we can insert cas value if version is 0 or insertion is forced
+            (Some(ValueEntry::Plain(current)), ValueEntry::Cas(val, 0), _) => {
+                // plain value present, we can insert cas value if version is 0
                 (true, current != &val, ValueEntry::Cas(val, 1))
+            }
+            (Some(ValueEntry::Plain(current)), ValueEntry::Cas(val, v), true) => {
+                // a forced insert stores the entry as is
+                (true, current != &val, ValueEntry::Cas(val, v))
             }
             (Some(ValueEntry::Plain(_)), ValueEntry::Cas(_, _), false) => {
                 // plain value present, we cannot insert cas value if version != 0 and insertion is not forced
@@ -882,8 +889,8 @@ impl Store {
                 return Err(StoreError::Cas);
             }
             (Some(ValueEntry::Cas(current, _)), ValueEntry::Cas(val, v), true) => {
-                // cas value present, we can insert new cas value if insertion is forced
-                (true, current != &val, ValueEntry::Cas(val, v + 1))
+                // cas value present, a forced insert stores the entry as is
+                (true, current != &val, ValueEntry::Cas(val, v.max(1)))
             }
             (Some(ValueEntry::Cas(current, v_curr)), ValueEntry::Cas(val, v), false)
                 if v_curr == &v =>
